@@ -33,6 +33,14 @@ type c16File struct {
 
 var hex64 = regexp.MustCompile(`[0-9a-f]{64}`)
 
+// wrongDir returns a 4-digit directory name that is certainly not the one the chunk id belongs in.
+func wrongDir(id string) string {
+	if id[0] == 'f' {
+		return "e" + id[1:4]
+	}
+	return "f" + id[1:4]
+}
+
 // runC16S3 prunes an S3 store (in-harness endpoint) holding objects of both formats, junk keys and objects outside the prefix.
 func runC16S3(c *fw.Case) {
 	unc := c.Bool("c16.uncompressed")
@@ -330,7 +338,7 @@ func runC16(c *fw.Case) {
 				ext = ".cacnk"
 			}
 			cands := []string{"README", filepath.Join(id[:4], "notes.txt"), filepath.Join("zz", id[:10]), id[:64] + ".bak",
-				filepath.Join("0000", id+ext),                                   // wrong directory
+				filepath.Join(wrongDir(id), id+ext),                                   // wrong directory
 				filepath.Join(strings.ToUpper(id[:4]), strings.ToUpper(id)+ext), // upper-case hex
 				id + ext,                             // directly in the base directory
 				filepath.Join(id[:4], "sub", id+ext), // nested deeper
